@@ -185,6 +185,85 @@ def gen_case(rng, big=False):
     return f"disp {max_streams} {','.join(map(str, rnd))} " + " ".join(ops)
 
 
+def gen_pending_case(rng):
+    """C13 'every pending connect is accounted for': several connects pending to ONE address, an earlier one leaves
+    first (its future is dropped -> ConnectDropped, or its SYN-ACK arrives), then further connects to that address
+    (they must take the freed slot and leave the still-pending ones alone); also the 5th connect (refused), SYN-ACKs
+    with an unknown ack, a second address, and small table limits.  The generator mirrors the slots to know which
+    sequence numbers are pending."""
+    max_streams = rng.choice([128, 128, 128, 4, 2])
+    rnd = [rng.choice([rng.below(65536), rng.below(65536), 65535, 0, 1]) for _ in range(48)]
+    ops = []
+    rnd_i = 1
+    next_con = 1
+    streams = 0
+    slots = {}             # addr -> 4 slots of (id, seq) / None
+    done = []              # ids whose result can be picked up
+    addrs = [rng.choice([6, 7])] * 3 + [8]
+
+    def connect(addr):
+        nonlocal rnd_i, next_con
+        cid = next_con
+        next_con += 1
+        ops.append(f"C{cid},{addr}")
+        ops.append("Rc")
+        done.append(cid)
+        if streams >= max_streams:
+            return
+        seq = rnd[rnd_i] if rnd_i < len(rnd) else 0
+        rnd_i += 1
+        sl = slots.setdefault(addr, [None] * 4)
+        for i in range(4):
+            if sl[i] is None:
+                sl[i] = (cid, seq)
+                done.remove(cid)
+                break
+
+    def leave(addr, i):
+        nonlocal streams
+        cid, seq = slots[addr][i]
+        if rng.below(2):
+            ops.append(f"c{cid}")
+            ops.append("Rc")
+            slots[addr][i] = None
+        else:
+            ops.append(f"D{addr},2,{(1000 + 2 * cid) % 65536},{rng.below(65536)},{seq}")
+            ops.append("Rr")
+            if streams < max_streams:
+                j = min(k for k in range(4) if slots[addr][k] is not None and slots[addr][k][1] == seq)
+                done.append(slots[addr][j][0])
+                slots[addr][j] = None
+                streams += 1
+
+    a0 = addrs[0]
+    for _ in range(rng.range(2, 4)):
+        connect(a0)
+    for _ in range(rng.range(4, 24)):
+        r = rng.below(100)
+        addr = rng.choice(addrs)
+        occ = [i for i in range(4) if slots.get(addr, [None] * 4)[i] is not None]
+        if r < 42 and occ:
+            # the earliest pending connect leaves first, most of the time
+            leave(addr, occ[0] if rng.below(4) else rng.choice(occ))
+        elif r < 86:
+            connect(addr)
+        elif r < 92:
+            ops.append(f"D{addr},2,{rng.below(65536)},{rng.below(65536)},{rng.below(65536)}")
+            ops.append("Rr")
+        elif done:
+            cid = rng.choice(done)
+            done.remove(cid)
+            ops.append(f"q{cid}")
+            ops.append("Rc")
+    return f"disp {max_streams} {','.join(map(str, rnd))} " + " ".join(ops)
+
+
+def gen_pending(rng, tier):
+    n = 600 if tier == "quick" else 12000
+    # plus a share of the general dispatcher scenarios: the predicate holds on every step of those too
+    return [gen_pending_case(rng) for _ in range(n)] + [gen_case(rng, big=rng.chance(1, 6)) for _ in range(n // 2)]
+
+
 def gen(rng, tier):
     n = 1500 if tier == "quick" else 30000
     return [gen_case(rng, big=rng.chance(1, 6)) for _ in range(n)]
